@@ -158,6 +158,13 @@ def same_events(ctx, rule, instance, fi, got, want, what, skip_args=(), guards=F
         return "%s(%s)" % (ev.name, ", ".join(show(a) for a in ev.args) + "".join(", %s=%s" % (k, show(v)) for k, v in ev.kwargs.items()))
 
     def fail(why):
+        # position-by-position comparison presumes that both sides list their paths in the same order.  Before
+        # reporting, compare what matters: in every guard scenario the *sequence* of active calls (callee,
+        # receiver, arguments by value).  Swapped if/else arms, early returns and merged paths pass; a dropped,
+        # added, re-conditioned or re-ordered call, or a changed argument, does not.
+        if _same_sequences(got, want, skip_args):
+            ctx.ok(rule, instance, fi.where(), "%s: %d call(s) agree with the specification scenario by scenario (paths listed in a different order)" % (what, len(got)))
+            return True
         ctx.fail(rule, instance, fi.where(), "%s: %s; code: %s ; spec: %s" % (what, why, _clip(" | ".join(sig(e) for e in got), 700), _clip(" | ".join(sig(e) for e in want), 700)), construct=fi.qualname, stmt=what)
         return False
 
@@ -190,6 +197,46 @@ def same_events(ctx, rule, instance, fi, got, want, what, skip_args=(), guards=F
     ctx.ok(rule, instance, fi.where(), "%s: %d call(s) agree with the specification: %s" % (what, len(got), _clip(" | ".join(sig(e) for e in got), 300)))
     ctx.sample({"rule": rule, "instance": instance, "calls": [sig(e) for e in got][:6]})
     return True
+
+
+def _same_sequences(got, want, skip_args=(), trials=48):
+    """In every guard scenario (a congruent random truth assignment of all guards), the sequences of active
+    events agree by callee, receiver and argument images."""
+    from .termflow import Valuation
+
+    def sig(val, e):
+        def img(v):
+            try:
+                return repr(val.image(vkey(v)))
+            except (ValueError, OverflowError, ZeroDivisionError):
+                return "<undefined>"
+        return (e.name, tuple(img(a) for j, a in enumerate(e.args) if j not in skip_args), tuple(sorted((k, img(v)) for k, v in e.kwargs.items())), img(e.recv) if e.recv is not None else None)
+
+    try:
+        for t in range(trials):
+            agreed = False
+            for attempt in range(3):
+                val = Valuation(t, salt="s%d" % attempt, base=None if attempt == 0 else Valuation(t, salt="s0"))
+
+                def active(evs):
+                    out = []
+                    for e in evs:
+                        try:
+                            on = all(val.truth(g) for g in e.full_guards)
+                        except (ValueError, OverflowError, ZeroDivisionError):
+                            on = True
+                        if on:
+                            out.append(sig(val, e))
+                    return out
+
+                if active(got) == active(want):
+                    agreed = True
+                    break
+            if not agreed:
+                return False
+        return True
+    except Unsupported:
+        return False
 
 
 def same_store(ctx, rule, instance, fi, ex, sp, attr):
